@@ -95,6 +95,9 @@ class Ctx:
         try:
             fn(self)
         except Unsupported as e:
+            if os.environ.get('MIDOLINT_DEBUG'):
+                import traceback
+                traceback.print_exc()
             self.fail(name, 'analysable', f'mido: {name}',
                       f'cannot establish the obligations of {name}: {e}', construct=f'{name}::unsupported')
         except AnalysisError as e:
